@@ -47,6 +47,8 @@ MonNext(p, m, e) ==
          ELSE IF ~m.ret /\ m.ctor = Comps(p) /\ (\E d \in Comps(p) : ~p.hp[d] /\ p.hs[d] /\ Desc(p, d) = {} /\ d \notin m.sb /\ AncPrepared(p, m, d))
          THEN Fail(m, "siblings-not-started-concurrently")
          ELSE Hit(m, "q")
+    \* nothing was made to fail and no timeout is set: start_component has no reason to raise
+    [] e.ev = "sc.raise" -> IF p.fail.c = 0 /\ ~p.timeout THEN Fail(m, "start_component-raised-although-no-component-failed") ELSE m
     [] e.ev = "stuck" -> IF p.acyclic THEN Fail(m, "acyclic-resource-dependencies-did-not-complete") ELSE m
     [] e.ev = "reg" -> [m EXCEPT !.regs = Append(@, e.id)]
     [] e.ev = "visible" -> IF Range(e.want) \subseteq Range(e.got) THEN Hit(m, "visible") ELSE Fail(m, "registered-resource-not-visible-in-the-surrounding-context")
